@@ -825,6 +825,8 @@ func (e *Eng) execInstr(fr *Frame, b *ssa.BasicBlock, ins ssa.Instruction, st *S
 			e.zeroObject(st, ref, pt, "zero "+x.Comment)
 			if isNamed(pt, "bytes", "Buffer") {
 				e.setStore(st, "BL", "(Array Int Int)", ref, "0", "empty bytes.Buffer")
+				e.sc.declare("buf_adopted", "(declare-fun buf_adopted (Int) Bool)")
+				e.sc.assume(not(sx("buf_adopted", ref)), "a zero bytes.Buffer owns whatever array it later allocates")
 			}
 		} else {
 			v.Loc = &Loc{Kind: LCell, Base: ref, ET: pt}
